@@ -255,6 +255,7 @@ LEVEL["C11"] = "model_checking"
 VERSION_CFG = """SPECIFICATION Spec
 CONSTRAINT Emit
 INVARIANT Agrees
+INVARIANT LoadAgrees
 PROPERTY FailStutters
 CHECK_DEADLOCK FALSE
 """
@@ -267,15 +268,18 @@ def check_c13(out, tier, seed):
     from . import core as c, tlc
     rnd = random.Random(seed)
     depth = 3 if tier == "quick" else 4
-    cat = c.CATALOGUES["ver"]
-    ops = [o for o in c.build_ops(cat) if o["k"] == "add"]
     jobs = []
     sp = [0, 0]
     nseq = 0
-    for cfgv in ("none", "gfa1", "gfa2"):
+    plan = [("ver", "standard", v) for v in ("none", "gfa1", "gfa2")] + \
+           [("rgfa", "rgfa", v) for v in ("none", "gfa1", "gfa2")]
+    for catname, dialect, cfgv in plan:
+        cat = c.CATALOGUES[catname]
+        ops = [o for o in c.build_ops(cat) if o["k"] == "add"]
         for vlevel in ((1,) if tier == "quick" else (1, 3)):
-            wd = tlc.workdir("ver-%s-%d" % (cfgv, vlevel))
-            cj, _ = c.catalog_json("ver", depth, cfgv, vlevel, ops)
+            wd = tlc.workdir("ver-%s-%s-%d" % (catname, cfgv, vlevel))
+            cj, _ = c.catalog_json(catname, depth, cfgv, vlevel, ops)
+            cj["cfg"]["dialect"] = dialect
             cf = os.path.join(wd, "catalog.json")
             with open(cf, "w") as f:
                 json.dump(cj, f)
@@ -287,16 +291,18 @@ def check_c13(out, tier, seed):
             seqs = sorted({tuple(x - 1 for x in tlc.tla_value(r)[1]) for r in tlc.parse_tuples(o, "H")})
             nseq += len(seqs)
             flush = dict(k="flush", text="", id="", id2="")
-            entries = ["list"] if tier == "quick" else ["list", "str", "file", "filecrlf"]
+            entries = ["list", "file"] if tier == "quick" else ["list", "str", "file", "filecrlf"]
+            validate = dict(k="validate", text="", id="", id2="")
             for n, h in enumerate(seqs):
                 texts = [ops[i]["text"] for i in h]
                 # incremental (every sequence), maximal ones only would lose the refusals: keep all
-                jobs.append(dict(id="vi-%s-%d-%d" % (cfgv, vlevel, n), kind="ver", cfg=dict(version=cfgv, vlevel=vlevel),
-                                 ops=[ops[i] for i in h] + [flush], universe=["A", "a"]))
+                jobs.append(dict(id="vi-%s-%s-%d-%d" % (catname, cfgv, vlevel, n), kind="ver",
+                                 cfg=dict(version=cfgv, vlevel=vlevel, dialect=dialect),
+                                 ops=[ops[i] for i in h] + [flush, validate], universe=["A", "a"]))
                 if tier != "quick" or n % 3 == seed % 3:
-                    for en in entries:
-                        jobs.append(dict(id="vl-%s-%s-%d-%d" % (en, cfgv, vlevel, n), kind="ver",
-                                         cfg=dict(version=cfgv, vlevel=vlevel),
+                    for en in (entries if tier != "quick" else entries[n % 2: n % 2 + 1] if dialect == "standard" else entries):
+                        jobs.append(dict(id="vl-%s-%s-%s-%d-%d" % (en, catname, cfgv, vlevel, n), kind="ver",
+                                         cfg=dict(version=cfgv, vlevel=vlevel, dialect=dialect),
                                          ops=[dict(k="load", text="", id=en, id2="", texts=texts,
                                                    cfgversion=None if cfgv == "none" else cfgv)],
                                          universe=["A", "a"]))
